@@ -1,10 +1,306 @@
-(* C08 — coalescent priors equal the Kingman density of their demographic function. (draft) *)
-From Coq Require Import QArith Reals List.
+(* C08 — coalescent priors equal the Kingman density of their demographic function.
+   Statements only.  Model: model/M_coalescent.v (hand-written, one polymorphic term per class of
+   torchtree/evolution/coalescent.py, tied to the code by interval-run correspondence).  Proofs:
+   proof/P_coalescent.v (over R), proof/P_coalescent_param.v (Paramcoq free theorems).
+
+   Vocabulary.  An event carries an exact key (Q), its time (R) and a kind Tip / Coal / Grid;
+   [keys_ok evs]: the keys order the events exactly as the real times do (true for every finite set
+   of reals with suitable keys, and for the events [mk_events] builds from exact inputs,
+   C08_entry_points).  COUNTING definitions (no sorting):
+     kcount evs t = #tips sampled at or before t - #coalescences at or before t      (lineages on (t, next))
+     gcount / ccount evs t = #grid points / #coalescences at or before t
+     glt evs t = #grid points strictly before t
+   [kterm P evs a b] = C(kcount evs a, 2) * P a b (gcount evs a) (ccount evs a) if a < b, else 0.
+   [isum F ts] = sum of F over consecutive pairs of ts.  [ts] is always "any list that is sorted and a
+   permutation of the event times" -- a declarative description of the time sequence, no algorithm.
+   [kingman P lnN evs ts] = - isum (kterm P evs) ts - sum over coalescent events of lnN(time):
+   the Kingman log density with int_a^b 1/N = P a b . . and ln N = lnN.
+   [no_tie evs]: no grid point lies exactly on a coalescent time. *)
+From Coq Require Import QArith ZArith Reals Qreals List Permutation Sorted.
 Import ListNotations.
-From TT Require Import Num NumR NumI ParamI Tree M_coalescent P_coalescent P_coalescent_param.
+From TT Require Import Num NumR NumQ NumI ParamI Tree M_coalescent P_coalescent P_coalescent_param.
+From Coquelicot Require Import Coquelicot.
 Open Scope R_scope.
 
+(* ------------------------------------------------------------------ the bookkeeping *)
+
+(* For ANY list s that is a permutation of the events and sorted by time -- i.e. whatever way the
+   sort breaks ties -- the running-count sum the code computes (cumsum of +1/-1/0 marks, theta index
+   by cumulative grid / coalescent marks) equals the sum over inter-event intervals with the
+   lineage count, grid index and coalescent index DEFINED BY COUNTING.  Intervals of length zero
+   (ties) contribute 0 whatever count the sort order produced on them. *)
+Theorem C08_sorted_cumsum_is_counting : forall P (evs s : list (event R)),
+  keys_ok evs -> Permutation s evs -> StronglySorted tle s ->
+  ksum NumR (fun iv => P (i_a iv) (i_b iv) (i_g iv) (i_c iv)) (intervals s)
+  = isum (kterm P evs) (map etime s).
+Proof. exact sorted_cumsum_is_counting_l. Qed.
+Print Assumptions C08_sorted_cumsum_is_counting.
+
+(* The ln N terms: at a coalescent event the cumulative number of grid marks is the number of grid
+   points strictly before its time, again for any tie-breaking (no grid point exactly on a
+   coalescent time: the value of a step function at its jump is a convention). *)
+Theorem C08_lnN_terms_are_counting : forall L (evs s : list (event R)),
+  keys_ok evs -> no_tie evs -> Permutation s evs -> StronglySorted tle s ->
+  csum NumR (fun iv => L (i_b iv) (i_g iv)) (intervals s) = coal_sum (fun t => L t (glt evs t)) evs.
+Proof. exact csum_counting_l. Qed.
+Print Assumptions C08_lnN_terms_are_counting.
+
+(* Order invariance: any permutation of the supplied events (internal heights in any order, tips
+   in any order, grid in any order) leaves every log_prob unchanged. *)
+Theorem C08_order_invariance : forall (evs evs' : list (event R)),
+  keys_ok evs -> Permutation evs evs' ->
+  (forall theta, constant_lp NumR theta evs = constant_lp NumR theta evs') /\
+  (forall theta gq g, exponential_lp NumR theta gq g evs = exponential_lp NumR theta gq g evs') /\
+  (forall thetas, skyride_lp NumR thetas evs = skyride_lp NumR thetas evs') /\
+  (no_tie evs ->
+   (forall thetas, skygrid_lp NumR thetas evs = skygrid_lp NumR thetas evs') /\
+   (forall thq th gridT, linear_lp NumR thq th gridT evs = linear_lp NumR thq th gridT evs') /\
+   (forall theta gq growth gridT,
+      pwexp_lp NumR theta gq growth gridT evs = pwexp_lp NumR theta gq growth gridT evs')).
+Proof. exact order_invariance_l. Qed.
+Print Assumptions C08_order_invariance.
+
+(* ------------------------------------------------------------------ model = Kingman density *)
+
+(* ConstantCoalescent: N(t) = theta. *)
+Theorem C08_constant_eq_kingman : forall theta (evs : list (event R)) ts,
+  keys_ok evs -> StronglySorted Rle ts -> Permutation ts (map etime evs) ->
+  constant_lp NumR theta evs = kingman (fun a b _ _ => (b - a) / theta) (fun _ => ln theta) evs ts.
+Proof. exact constant_eq_kingman_l. Qed.
+Print Assumptions C08_constant_eq_kingman.
+
+(* ExponentialCoalescent: N(t) = theta exp(-g t), g <> 0 (integral: C08_integral_exp). *)
+Theorem C08_exponential_eq_kingman : forall theta gq g (evs : list (event R)) ts,
+  Qeq_bool gq 0 = false ->
+  keys_ok evs -> StronglySorted Rle ts -> Permutation ts (map etime evs) ->
+  exponential_lp NumR theta gq g evs
+  = kingman (fun a b _ _ => (exp (b * g) - exp (a * g)) / (theta * g))
+            (fun t => ln (theta * exp (- t * g))) evs ts.
+Proof. exact exponential_eq_kingman_l. Qed.
+Print Assumptions C08_exponential_eq_kingman.
+(* growth rate 0 is the constant model (the code returns nan there: known finding). *)
+Theorem C08_exponential_growth0_is_constant : forall theta gq g (evs : list (event R)),
+  Qeq_bool gq 0 = true -> exponential_lp NumR theta gq g evs = constant_lp NumR theta evs.
+Proof. exact exponential_flat_l. Qed.
+Print Assumptions C08_exponential_growth0_is_constant.
+
+(* PiecewiseConstantCoalescent (skyride): N = thetas_c between the c-th and (c+1)-th coalescence
+   (c = number of coalescences at or before the start of the interval, by counting); the j-th
+   coalescence contributes ln thetas_j. *)
+Theorem C08_skyride_eq_kingman : forall thetas (evs : list (event R)) ts,
+  keys_ok evs -> StronglySorted Rle ts -> Permutation ts (map etime evs) ->
+  skyride_lp NumR thetas evs
+  = - isum (kterm (fun a b _ c => (b - a) / lk thetas c 0) evs) ts - Rsum (map ln thetas).
+Proof. exact skyride_eq_kingman_l. Qed.
+Print Assumptions C08_skyride_eq_kingman.
+
+(* PiecewiseConstantCoalescentGrid (skygrid): N(t) = thetas_(number of grid points before t), for
+   every grid: points beyond the root, before the first coalescence, on sampling times. *)
+Theorem C08_skygrid_eq_kingman : forall thetas (evs : list (event R)) ts,
+  keys_ok evs -> no_tie evs -> StronglySorted Rle ts -> Permutation ts (map etime evs) ->
+  skygrid_lp NumR thetas evs
+  = kingman (fun a b g _ => (b - a) / lk thetas g 0) (fun t => ln (lk thetas (glt evs t) 0)) evs ts.
+Proof. exact skygrid_eq_kingman_l. Qed.
+Print Assumptions C08_skygrid_eq_kingman.
+
+(* PiecewiseLinearCoalescentGrid: N = linN (linear interpolation of the thetas on the grid with
+   t = 0 prepended, last theta beyond the grid); piece integral linP = duration / N on flat pieces,
+   the closed form elsewhere (C08_lin_piece_is_integral, C08_lin_piece_flat_is_integral).
+   PARTIAL: N is continuous, so the full statement is the same equation WITHOUT the hypothesis
+   [no_tie evs]; what is missing is the continuity argument at a coalescent time that coincides with
+   a grid point (linN (j+1) g = linN j g at grid point g). *)
+Theorem C08_linear_eq_kingman_partial : forall thq th gridT (evs : list (event R)) ts,
+  keys_ok evs -> no_tie evs -> StronglySorted Rle ts -> Permutation ts (map etime evs) ->
+  linear_lp NumR thq th gridT evs
+  = kingman (fun a b g _ => linP thq th gridT a b g) (fun t => ln (linN th gridT (glt evs t) t)) evs ts.
+Proof. exact linear_eq_kingman_l. Qed.
+Print Assumptions C08_linear_eq_kingman_partial.
+
+(* PiecewiseExponentialCoalescentGrid: ln N = peLnN (N(0) = theta, growth_j on piece j, continuous).
+   PARTIAL in the same sense (hypothesis no_tie removable by continuity, not proved). *)
+Theorem C08_pwexp_eq_kingman_partial : forall theta gq growth gridT (evs : list (event R)) ts,
+  keys_ok evs -> no_tie evs -> StronglySorted Rle ts -> Permutation ts (map etime evs) ->
+  pwexp_lp NumR theta gq growth gridT evs
+  = kingman (fun a b g _ => peP theta gq growth gridT a b g)
+            (fun t => peLnN theta growth gridT (glt evs t) t) evs ts.
+Proof. exact pwexp_eq_kingman_l. Qed.
+Print Assumptions C08_pwexp_eq_kingman_partial.
+
+(* ------------------------------------------------------------------ closed-form piece integrals *)
+
+Theorem C08_integral_const : forall N0 a b, is_RInt (fun _ => / N0) a b ((b - a) / N0).
+Proof. exact integral_const_l. Qed.
+Print Assumptions C08_integral_const.
+
+(* N(t) = theta exp(-g t), g <> 0 *)
+Theorem C08_integral_exp : forall theta g a b, theta <> 0 -> g <> 0 ->
+  is_RInt (fun t => / (theta * exp (- t * g))) a b ((exp (b * g) - exp (a * g)) / (theta * g)).
+Proof. exact integral_exp_l. Qed.
+Print Assumptions C08_integral_exp.
+
+(* a piece starting at t0 with size N0 and growth rate g <> 0 *)
+Theorem C08_integral_exp_piece : forall N0 g t0 a b, N0 <> 0 -> g <> 0 ->
+  is_RInt (fun t => / (N0 * exp (- g * (t - t0)))) a b
+          ((exp (g * (b - t0)) - exp (g * (a - t0))) / (N0 * g)).
+Proof. exact integral_exp_piece_l. Qed.
+Print Assumptions C08_integral_exp_piece.
+
+(* linear piece through (t0,N0) and (t1,N1), N1 <> N0, positive on the interval *)
+Theorem C08_integral_linear : forall N0 N1 t0 t1 a b,
+  t1 <> t0 -> N1 <> N0 -> a <> b ->
+  let N := fun t => N0 + (N1 - N0) * (t - t0) / (t1 - t0) in
+  (forall x, Rmin a b <= x <= Rmax a b -> 0 < N x) ->
+  is_RInt (fun t => / N t) a b ((b - a) * (ln (N b) - ln (N a)) / (N b - N a)).
+Proof. exact integral_linear_l. Qed.
+Print Assumptions C08_integral_linear.
+
+(* the flat limit N1 = N0: duration / N0 -- not duration / (last theta) as the code computes *)
+Theorem C08_integral_linear_flat : forall N0 N1 t0 t1 a b, N1 = N0 ->
+  is_RInt (fun t => / (N0 + (N1 - N0) * (t - t0) / (t1 - t0))) a b ((b - a) / N0).
+Proof. exact integral_linear_flat_l. Qed.
+Print Assumptions C08_integral_linear_flat.
+
+(* the MODEL's piece functions are the integrals of 1 / (the model's own N) *)
+Theorem C08_lin_piece_is_integral : forall thq th gridT (iv : ival R),
+  let j := i_g iv in
+  (j < length gridT)%nat -> lin_flat thq (length gridT) j = false ->
+  lk th (S j) 0 <> lk th j 0 -> g0 NumR gridT (S j) <> g0 NumR gridT j -> i_a iv <> i_b iv ->
+  (forall x, Rmin (i_a iv) (i_b iv) <= x <= Rmax (i_a iv) (i_b iv) -> 0 < lin_N NumR th gridT j x) ->
+  is_RInt (fun t => / lin_N NumR th gridT j t) (i_a iv) (i_b iv) (lin_piece NumR thq th gridT iv).
+Proof. exact lin_piece_is_integral_l. Qed.
+Print Assumptions C08_lin_piece_is_integral.
+Theorem C08_lin_piece_flat_is_integral : forall thq th gridT (iv : ival R),
+  let j := i_g iv in
+  lin_flat thq (length gridT) j = true ->
+  ((length gridT <= j)%nat \/ lk th (S j) 0 = lk th j 0) ->
+  is_RInt (fun t => / lin_N NumR th gridT j t) (i_a iv) (i_b iv) (lin_piece NumR thq th gridT iv).
+Proof. exact lin_piece_flat_is_integral_l. Qed.
+Print Assumptions C08_lin_piece_flat_is_integral.
+Theorem C08_pe_piece_is_integral : forall theta gq growth gridT (iv : ival R),
+  let j := i_g iv in
+  Qeq_bool (lk gq j 0%Q) 0 = false -> lk growth j 0 <> 0 ->
+  is_RInt (fun t => / exp (pe_lnN NumR (ln theta) growth gridT j t)) (i_a iv) (i_b iv)
+          (pe_piece NumR (ln theta) gq growth gridT iv).
+Proof. exact pe_piece_is_integral_l. Qed.
+Print Assumptions C08_pe_piece_is_integral.
+Theorem C08_pe_piece_flat_is_integral : forall theta gq growth gridT (iv : ival R),
+  let j := i_g iv in
+  Qeq_bool (lk gq j 0%Q) 0 = true -> lk growth j 0 = 0 ->
+  is_RInt (fun t => / exp (pe_lnN NumR (ln theta) growth gridT j t)) (i_a iv) (i_b iv)
+          (pe_piece NumR (ln theta) gq growth gridT iv).
+Proof. exact pe_piece_flat_is_integral_l. Qed.
+Print Assumptions C08_pe_piece_flat_is_integral.
+
+(* ------------------------------------------------------------------ all pieces equal = constant model *)
+
+(* skygrid, EVERY grid and every event list (grid points beyond the root, before the first
+   coalescence, on event times; no validity assumption on the times at all) *)
+Theorem C08_skygrid_all_equal_is_constant : forall theta (evs : list (event R)),
+  keys_ok evs ->
+  skygrid_lp NumR (repeat theta (S (sumN isgrid evs))) evs = constant_lp NumR theta evs.
+Proof. exact skygrid_all_equal_l. Qed.
+Print Assumptions C08_skygrid_all_equal_is_constant.
+
+(* piecewise linear, every grid *)
+Theorem C08_linear_all_equal_is_constant : forall q theta gridT (evs : list (event R)),
+  keys_ok evs -> length gridT = sumN isgrid evs ->
+  linear_lp NumR (repeat q (S (length gridT))) (repeat theta (S (length gridT))) gridT evs
+  = constant_lp NumR theta evs.
+Proof. exact linear_all_equal_l. Qed.
+Print Assumptions C08_linear_all_equal_is_constant.
+
+(* skyride, every valid time vector: at most n tips for n-1 coalescences, and at no time more
+   coalescences than sampled lineages *)
+Theorem C08_skyride_all_equal_is_constant : forall theta (evs : list (event R)),
+  keys_ok evs -> (sumN istip evs <= S (sumN iscoal evs))%nat -> (forall t, (0 <= kcount evs t)%Z) ->
+  skyride_lp NumR (repeat theta (sumN iscoal evs)) evs = constant_lp NumR theta evs.
+Proof. exact skyride_all_equal_l. Qed.
+Print Assumptions C08_skyride_all_equal_is_constant.
+
+(* ------------------------------------------------------------------ scaling law *)
+(* All times (and their keys) and all population sizes multiplied by c > 0, growth rates divided
+   by c: log p - (n-1) ln c, n-1 = sumN iscoal evs = the number of coalescent events.
+   PROVED for the constant, exponential, skyride and skygrid models.  scaling_law is PARTIAL: the
+   same statement for linear_lp (thetas and gridT times c) and pwexp_lp (theta, gridT times c,
+   growth / c) is not proved (it needs linN / peLnN homogeneity lemmas over the grid lookup):
+     linear_lp NumR thq' (map (Rmult c) th) (map (Rmult c) gridT) evs'
+       = linear_lp NumR thq th gridT evs - INR (sumN iscoal evs) * ln c
+     pwexp_lp NumR (c * theta) gq' (map (fun g => g / c) growth) (map (Rmult c) gridT) evs'
+       = pwexp_lp NumR theta gq growth gridT evs - INR (sumN iscoal evs) * ln c.
+   (The implementation is checked for all six directly, on every correspondence case.) *)
+Theorem C08_scaling_law_constant : forall cq c (evs : list (event R)),
+  0 < c -> keys_ok evs -> keys_ok (map (scale_ev cq c) evs) ->
+  forall theta, 0 < theta ->
+  constant_lp NumR (c * theta) (map (scale_ev cq c) evs)
+  = constant_lp NumR theta evs - INR (sumN iscoal evs) * ln c.
+Proof. exact constant_scaling_l. Qed.
+Print Assumptions C08_scaling_law_constant.
+Theorem C08_scaling_law_exponential : forall cq c (evs : list (event R)),
+  0 < c -> keys_ok evs -> keys_ok (map (scale_ev cq c) evs) ->
+  forall theta gq gq' g, 0 < theta -> Qeq_bool gq 0 = false -> Qeq_bool gq' 0 = false ->
+  exponential_lp NumR (c * theta) gq' (g / c) (map (scale_ev cq c) evs)
+  = exponential_lp NumR theta gq g evs - INR (sumN iscoal evs) * ln c.
+Proof. exact exponential_scaling_l. Qed.
+Print Assumptions C08_scaling_law_exponential.
+Theorem C08_scaling_law_skyride : forall cq c (evs : list (event R)),
+  0 < c -> keys_ok evs -> keys_ok (map (scale_ev cq c) evs) ->
+  forall thetas, List.Forall (fun x => 0 < x) thetas -> length thetas = sumN iscoal evs ->
+  skyride_lp NumR (map (Rmult c) thetas) (map (scale_ev cq c) evs)
+  = skyride_lp NumR thetas evs - INR (sumN iscoal evs) * ln c.
+Proof. exact skyride_scaling_l. Qed.
+Print Assumptions C08_scaling_law_skyride.
+Theorem C08_scaling_law_skygrid : forall cq c (evs : list (event R)),
+  0 < c -> keys_ok evs -> keys_ok (map (scale_ev cq c) evs) ->
+  forall thetas, no_tie evs -> List.Forall (fun x => 0 < x) thetas -> length thetas = S (sumN isgrid evs) ->
+  skygrid_lp NumR (map (Rmult c) thetas) (map (scale_ev cq c) evs)
+  = skygrid_lp NumR thetas evs - INR (sumN iscoal evs) * ln c.
+Proof. exact skygrid_scaling_l. Qed.
+Print Assumptions C08_scaling_law_skygrid.
+
+(* ------------------------------------------------------------------ the runs of the correspondence *)
+
+(* The events the entry points build from exact inputs satisfy the hypotheses above, and a sorted
+   time sequence exists for every consistent event list (the theorems are not vacuous). *)
+Theorem C08_entry_points : forall tips coals grid,
+  keys_ok (mk_events NumR tips coals grid) /\
+  ((forall c g, In c coals -> In g grid -> ~ (c == g)%Q) -> no_tie (mk_events NumR tips coals grid)) /\
+  exists ts, StronglySorted Rle ts /\ Permutation ts (map etime (mk_events NumR tips coals grid)).
+Proof.
+  intros tips coals grid. split; [apply mk_events_keys_ok|]. split; [apply mk_events_no_tie|].
+  apply sorted_times_exist, mk_events_keys_ok.
+Qed.
+Print Assumptions C08_entry_points.
+
+(* Free theorems (Paramcoq): the interval run the harness evaluates encloses the real-valued model
+   the theorems above speak about, for each of the six log_probs. *)
 Theorem C08_run_encloses_constant : forall theta tips coals,
   rel (constant_q NumR theta tips coals) (constant_q NumI theta tips coals).
 Proof. exact constant_enclosed. Qed.
 Print Assumptions C08_run_encloses_constant.
+Theorem C08_run_encloses_exponential : forall theta g tips coals,
+  rel (exponential_q NumR theta g tips coals) (exponential_q NumI theta g tips coals).
+Proof. exact exponential_enclosed. Qed.
+Theorem C08_run_encloses_skyride : forall thetas tips coals,
+  rel (skyride_q NumR thetas tips coals) (skyride_q NumI thetas tips coals).
+Proof. exact skyride_enclosed. Qed.
+Theorem C08_run_encloses_skygrid : forall thetas grid tips coals,
+  rel (skygrid_q NumR thetas grid tips coals) (skygrid_q NumI thetas grid tips coals).
+Proof. exact skygrid_enclosed. Qed.
+Theorem C08_run_encloses_linear : forall thetas grid tips coals,
+  rel (linear_q NumR thetas grid tips coals) (linear_q NumI thetas grid tips coals).
+Proof. exact linear_enclosed. Qed.
+Theorem C08_run_encloses_pwexp : forall theta growth grid tips coals,
+  rel (pwexp_q NumR theta growth grid tips coals) (pwexp_q NumI theta growth grid tips coals).
+Proof. exact pwexp_enclosed. Qed.
+Print Assumptions C08_run_encloses_pwexp.
+
+(* non-vacuity: a heterochronous 4-taxon example with a tie (tips 0,1,1,0; internal heights
+   supplied as 3,2,4; grid point 5/2).  Per sorted event: [lineages k; grid marks g; coalescent
+   marks c; zero-length?] on the interval ending at it: 0,1 lineages up to the tips at 1, 4 lineages on (1,2),
+   3 on (2,5/2) and (5/2,3) -- the latter in grid piece 1 --, 2 on (3,4). *)
+Example C08_example :
+  map (fun iv => [i_k iv; Z.of_nat (i_g iv); Z.of_nat (i_c iv); if i_zero iv then 1 else 0]%Z)
+      (intervals (sort_ev (mk_events NumQ [0; 1; 1; 0]%Q [3; 2; 4]%Q ((5#2)%Q :: nil))))
+  = [[0; 0; 0; 1]; [1; 0; 0; 1]; [2; 0; 0; 0]; [3; 0; 0; 1]; [4; 0; 0; 0];
+     [3; 0; 1; 0]; [3; 1; 1; 0]; [2; 1; 2; 0]]%Z.
+Proof. vm_compute. reflexivity. Qed.
